@@ -10,6 +10,7 @@ from hypothesis import strategies as st
 from vlib import files, gen, oracle
 
 ID = "C16"
+EPS32 = float(np.finfo(np.float32).eps)
 RULE = ("case = (solvated multi-chain system cut from the seed structures: protein residues of unequal size incl. GLY, optionally a residue "
         "without CA, ligand, ions, waters; 1-3 noisy frames; optional orthorhombic / triclinic cell) x descriptor in {contacts for the 5 "
         "schemes x 'all' / explicit pairs x periodic x soft_min(beta), centre of mass / geometry, Rg (+ weight scaling), gyration tensor, "
@@ -42,7 +43,7 @@ def seed_system():
 
 @st.composite
 def strategy(draw, tier="quick"):
-    what = draw(st.sampled_from(["contacts", "contacts", "contacts", "moments", "rdf", "drid", "dipole", "jcoupling", "density"]))
+    what = draw(st.sampled_from(["contacts", "contacts", "contacts", "moments", "rdf", "drid", "dipole", "jcoupling", "density", "nematic", "volume-stats"]))
     case = {"what": what, "seed": draw(st.integers(0, 2 ** 31)), "nf": draw(st.integers(1, 3)),
             "nres": draw(st.integers(6, 14)), "start": draw(st.integers(0, 20)), "drop_ca": draw(st.integers(0, 4)) == 0,
             "extras": draw(st.sampled_from(["none", "water", "water+ions+lig"])),
@@ -54,6 +55,10 @@ def strategy(draw, tier="quick"):
     if what == "rdf":
         case.update(rlo=draw(st.sampled_from([0.0, 0.0, 0.1])), rhi=draw(st.sampled_from([1.0, 0.6, 1.45])),
                     bins=draw(st.sampled_from([None, None, 7, 40])), width=draw(st.sampled_from([0.005, 0.05, 0.13])))
+    if what == "nematic":
+        case.update(groups=draw(st.sampled_from(["chains", "residues", "explicit", "explicit"])))
+    if what == "volume-stats":
+        case.update(nf=draw(st.integers(2, 6)), temperature=draw(st.sampled_from([250.0, 298.15, 400.0])))
     if what == "drid":
         case.update(subset=draw(st.sampled_from(["all", "every3", "random"])))
     return case
@@ -82,7 +87,7 @@ def build(case):
     x0 -= x0.min(0) - 0.5
     xyz = np.array([x0 + rng.normal(0, case["noise"] * (1 + f), x0.shape) for f in range(nf)]).astype(np.float32)
     t = md.Trajectory(xyz, sub.topology, time=np.arange(nf) * 1.0)
-    need_cell = case["what"] in ("rdf", "density", "dipole")
+    need_cell = case["what"] in ("rdf", "density", "dipole", "volume-stats")
     cell = case["cell"] or ("ortho" if need_cell else None)
     if cell:
         ext = float(xyz.max()) + 1.0
@@ -341,8 +346,83 @@ def run_case(case):
             if mom.shape != want.shape or not (np.allclose(mom, want, rtol=1e-4, atol=1e-5) or np.allclose(mom, -want, rtol=1e-4, atol=1e-5)):
                 viol.append(("dipole_moments", "got %s, documented construction gives %s" % (mom[0], want[0])))
             nontrivial = True
+        elif what == "nematic":
+            rng = np.random.Generator(np.random.PCG64(case["seed"] + 4))
+            if case["groups"] == "chains":
+                arg, groups = "chains", [[a.index for a in c.atoms] for c in top.chains]
+            elif case["groups"] == "residues":
+                arg, groups = "residues", [[a.index for a in r.atoms] for r in top.residues]
+            else:
+                groups = []
+                for _ in range(int(rng.integers(1, 6))):
+                    k = int(rng.integers(3, min(n, 30)))
+                    groups.append(sorted(int(i) for i in rng.choice(n, k, replace=False)))
+                arg = groups
+            D = md.compute_directors(t, arg)
+            S2 = md.compute_nematic_order(t, arg)
+            if D.shape != (nf, len(groups), 3) or S2.shape != (nf,):
+                viol.append(("nematic/shape", "directors %s, S2 %s for %d frames and %d groups" % (D.shape, S2.shape, nf, len(groups))))
+            else:
+                for f in range(nf):
+                    sound = True
+                    E = np.zeros((len(groups), 3))
+                    for g, ids in enumerate(groups):
+                        m = masses[ids]
+                        r = x[f, ids] - (m[:, None] * x[f, ids]).sum(0) / m.sum()
+                        I = (m * (r ** 2).sum(1)).sum() * np.eye(3) - np.einsum("i,ia,ib->ab", m, r, r)
+                        w, v = np.linalg.eigh(I)
+                        if len(ids) < 3 or not (w[1] - w[0] > 1e-3 * w[2] > 0):
+                            sound = False       # no unique long axis: any director is as good as another
+                            continue
+                        E[g] = v[:, 0]
+                        d = D[f, g] / np.linalg.norm(D[f, g])
+                        # the axis is defined up to sign; conditioning of the eigenvector ~ eps32 * w2 / gap
+                        tol = 1e-5 + 64 * EPS32 * w[2] / (w[1] - w[0]) * (1 + np.abs(x[f, ids]).max() / max(np.sqrt((r ** 2).sum(1)).max(), 1e-9))
+                        if not abs(abs(d @ v[:, 0]) - 1.0) <= tol:
+                            viol.append(("nematic/director", "frame %d group %d: director %s is not the axis of smallest moment of inertia %s (|cos|=%.6f)" % (
+                                f, g, d, v[:, 0], abs(d @ v[:, 0]))))
+                            break
+                    # S2 = largest eigenvalue of Q = 1/(2N) sum (3 e e^T - 1): from the returned directors always, from the oracle's when defined
+                    for name, V in (("from-returned-directors", D[f] / np.linalg.norm(D[f], axis=1)[:, None]),) + ((("from-inertia-axes", E),) if sound else ()):
+                        if not np.isfinite(V).all():
+                            continue
+                        Q = (3 * np.einsum("ga,gb->ab", V, V) - len(groups) * np.eye(3)) / (2.0 * len(groups))
+                        want = np.linalg.eigvalsh(Q).max()
+                        tolS = 1e-6 if name == "from-returned-directors" else 2e-3
+                        if not abs(S2[f] - want) <= tolS:
+                            viol.append(("nematic/S2/" + name, "frame %d: S2 %.8f, largest eigenvalue of Q %.8f" % (f, S2[f], want)))
+                    if viol:
+                        break
+            labels.append("groups:" + case["groups"])
+            nontrivial = len(groups) >= 2
+        elif what == "volume-stats":
+            from mdtraj.geometry import thermodynamic_properties as tp
+            T = case["temperature"]
+            V = np.array([abs(np.linalg.det(b)) for b in t.unitcell_vectors.astype(np.float64)])
+            kB = 1.380649e-23
+            # kappa_T = (<V^2> - <V>^2) / (kB T <V>), sample (n-1) covariance as numpy.cov, nm^3 -> m^3, in 1/bar
+            want = (V.var(ddof=1) / V.mean()) * 1e-27 / (kB * T) * 1e5
+            got = tp.isothermal_compressability_kappa_T(t, T)
+            if not abs(float(got) - want) <= 2e-3 * abs(want) + 1e-12:
+                viol.append(("kappa_T", "got %.8g 1/bar, var(V)/(kB T <V>) = %.8g" % (float(got), want)))
+            rng = np.random.Generator(np.random.PCG64(case["seed"] + 5))
+            q = rng.normal(0, 0.5, n)
+            M = tp.dipole_moments(t, q).astype(np.float64)
+            var = ((M - M.mean(0)) ** 2).sum(1).mean()
+            e, eps0 = 1.602176634e-19, 8.8541878128e-12
+            wantd = 1.0 + var * (e * 1e-9) ** 2 / (3 * kB * T * V.mean() * 1e-27 * eps0)
+            gotd = tp.static_dielectric(t, q, T)
+            if not abs(float(gotd) - wantd) <= 2e-3 * abs(wantd):
+                viol.append(("static_dielectric", "got %.8g, 1 + <dM^2>/(3 kB T <V> eps0) = %.8g" % (float(gotd), wantd)))
+            nontrivial = nf >= 3
         elif what == "jcoupling":
             idx, phi = md.compute_phi(t)
+            for fn, (A, B, C), ph0 in ((md.compute_J3_HN_C, (4.36, -1.08, -0.01), math.pi), (md.compute_J3_HN_CB, (3.71, -0.59, 0.08), math.pi / 3)):
+                i2, J = fn(t)
+                p = phi.astype(np.float64) + ph0
+                w = A * np.cos(p) ** 2 + B * np.cos(p) + C
+                if not np.array_equal(i2, idx) or J.shape != w.shape or not np.allclose(J, w, rtol=1e-4, atol=1e-4):
+                    viol.append((fn.__name__, "Karplus relation with the tabulated Bax2007 coefficients not reproduced"))
             for model, (A, B, C) in (("Bax2007", (8.4, -1.36, 0.33)), ("Ruterjans1999", (7.90, -1.05, 0.65)), ("Bax1997", (7.09, -1.42, 1.55))):
                 i2, J = md.compute_J3_HN_HA(t, model=model)
                 p = phi.astype(np.float64) - math.pi / 3
